@@ -245,8 +245,34 @@ def _neg_listing(tree):
     return dict(jobs=[job], expected="every numeral reads back in base 8: values [-5, 7]", observed=rows, reproduced=not ok or sorted(vals) != [-5, 7])
 
 
+def _include_listing(tree):
+    """a file that defines symbols before AND after including another file that defines symbols: every symbol once, under its own file"""
+    import shutil
+    import subprocess
+    import tempfile
+    d = tempfile.mkdtemp(prefix="pyvc-lst-")
+    try:
+        open(os.path.join(d, "main.mac"), "w").write('a = 1\nstart: nop\n.include "inc.mac"\nz = 2\nlast: nop\nneg = -3\n')
+        open(os.path.join(d, "inc.mac"), "w").write("q = 3\nil: nop\n")
+        p = subprocess.run(["/venv/bin/python", "-c", "import sys; sys.path.insert(0, %r); sys.argv = ['pdpy11', 'main.mac', '--lst', '-o', 'out.bin']; from pdpy11._cli import main_cli; main_cli()" % tree],
+                           cwd=d, capture_output=True, text=True, timeout=120)
+        lst = open(os.path.join(d, "out.lst")).read() if os.path.exists(os.path.join(d, "out.lst")) else ""
+        got = {}
+        for block in [b for b in lst.split("\n\n") if b.strip()]:
+            lines = block.split("\n")
+            got[os.path.basename(lines[0])] = sorted(l.split(" ", 1)[1] for l in lines[1:] if " " in l)
+        want = {"main.mac": sorted(["a", "start", "z", "last", "neg"]), "inc.mac": sorted(["q", "il"])}
+        return dict(jobs=None, experiment="main.mac with symbols before and after '.include \"inc.mac\"', CLI --lst", expected=want, observed=got, exit=p.returncode, reproduced=got != want)
+    finally:
+        shutil.rmtree(d, ignore_errors=True)
+
+
 def replay(o, tree):
     import os
+    if o.get("unit", "").startswith("generate_listing["):
+        r = _include_listing(tree)
+        if r["reproduced"]:
+            return r
     if o.get("unit", "").startswith("main_cli["):
         from contracts import cli_c
         r = cli_c.replay_cli(o, tree)
